@@ -52,7 +52,7 @@ class RaiseEx(Exception):
 class Obl:
     __slots__ = ("name", "kind", "func", "lineno", "hyps", "goal", "path",
                  "status", "time", "model", "note", "solver", "interp",
-                 "ncalls")
+                 "ncalls", "replay")
 
     def __init__(self, name, kind, func, lineno, hyps, goal, path):
         self.name = name
@@ -69,6 +69,7 @@ class Obl:
         self.solver = ""
         self.interp = None
         self.ncalls = 0
+        self.replay = None
 
     def ident(self):
         return f"{self.func}::{self.name}"
@@ -136,7 +137,8 @@ class Interp:
             return
         self.pc.append(f)
 
-    def oblige(self, name, goal, kind="assert", lineno=None):
+    def oblige(self, name, goal, kind="assert", lineno=None, assume=True,
+               replay=None):
         if self.spec and kind in ("safety", "lib_requires"):
             # contract expressions are total (out-of-range reads of an
             # uninterpreted array are unspecified values, not errors)
@@ -148,9 +150,13 @@ class Interp:
                 list(self.pc), goal, tuple(self.decisions[:self.dptr]))
         o.interp = self
         o.ncalls = len(self.call_log)
+        o.replay = replay
         self.obls.append(o)
         # after stating a duty we may rely on it further down the path
-        self.pc.append(goal)
+        # (not for point-wise invariants such as C13's interrupt invariant,
+        # which may legitimately fail at one statement and hold at the next)
+        if assume:
+            self.pc.append(goal)
 
     def fail(self, name):
         """A definite run-time error on this path."""
